@@ -133,6 +133,13 @@ Theorem C10_overwrite_buffers_fresh :
 Proof. exact overwrite_ok. Qed.
 Print Assumptions C10_overwrite_buffers_fresh.
 
+(* which implementation each arm of every backend-conditional branch calls is the expected one, and every jit kernel has
+   a declared fallback pair that the harness runs (sorted and non-monotone inputs) *)
+Theorem C10_kernel_fallback_pairs :
+  flag_branches = expected_flag_branches /\ (forall k, In k jit_functions -> kernel_has_pair k = true).
+Proof. exact branches_ok. Qed.
+Print Assumptions C10_kernel_fallback_pairs.
+
 (* imported here, after the theorems above, because C07.Model re-uses names of C10.Model (call, den, ...) *)
 From PB Require Import C07.Model C07.Proofs C10.Btb C10.BeadsModel C10.BeadsProofs.
 Module M7 := PB.C07.Model.
